@@ -138,10 +138,16 @@ PtrStage(s, valid) ==
      ELSE IF \E x \in ns : ~NameOK(s, x) THEN "name-not-explained"          \* the stream lies about a name
      ELSE IF \E x \in ns : ~WFName(s[x].name) THEN "name-invalid"
      ELSE "ok"
-PtrBad(s, valid) ==          \* the part the stage is about (for finding keys): RR type, 0 = question
+PtrBad(s, valid) ==          \* index of the first part the stage is about (0: none)
   LET ps == { x \in 1..Len(s) : s[x].k = "n" /\ s[x].ptr # -1 /\
                 (~valid \/ ~s[x].c \/ s[x].ptr >= MaxOff \/ s[x].ptr >= s[x].a \/ ~HintOK(s, x)) }
-  IN IF ps = {} THEN -1 ELSE s[CHOOSE x \in ps : \A y \in ps : x <= y].t
+  IN IF ps = {} THEN 0 ELSE CHOOSE x \in ps : \A y \in ps : x <= y
+\* where a name part sits, for finding keys: <<"question" | "owner" | "rdata", RR type>>
+WhereOf(s, x) ==
+  IF x = 0 THEN <<"-", 0>>
+  ELSE IF s[x].t = 0 THEN <<"question", 0>>
+  ELSE IF x + 2 <= Len(s) /\ s[x + 1].k = "o" /\ s[x + 2].k = "l" THEN <<"owner", s[x].t>>
+  ELSE <<"rdata", s[x].t>>
 
 \* both streams denote the same message: same parts in the same order, names equal with case,
 \* other octets equal; RDLENGTH is implied by the RDATA parts and checked by Tiles on each side
@@ -273,13 +279,6 @@ ValidCompressedStage(bc, bu) ==
   ELSE IF ~wc.ok THEN "compressed-unreadable:" \o wc.why
   ELSE JudgeStreams(bc, bu, WithHints(wc.parts), WithHints(wu.parts), 12)
 ValidCompressed(bc, bu) == ValidCompressedStage(bc, bu) = "ok"
-
-\* the RR type the first offending pointer sits in (-1: none), for finding keys
-OffenderType(bc, bu) ==
-  LET wu == StreamOf(bu)  wc == StreamOf(bc) IN
-  IF ~wu.ok \/ ~wc.ok THEN -1
-  ELSE IF PtrBad(WithHints(wu.parts), FALSE) # -1 THEN PtrBad(WithHints(wu.parts), FALSE)
-  ELSE PtrBad(WithHints(wc.parts), TRUE)
 
 -----------------------------------------------------------------------------
 (* From abstract messages: what the stream of EncMsg(m) must be, and octets    *)
